@@ -28,6 +28,7 @@ type profile struct {
 	finale                                         bool    // complete the exchange at the end (C01)
 	pWide                                          float64 // scripted prefix: many single-entry writers + one long chain merged into one log
 	pFault, pPin                                   float64 // appends/publications during a store outage; appends that ask for pinning
+	pOpen                                          float64 // a replica opened over a selection of another replica's entries, then used
 }
 
 var baseProfile = profile{name: "base", minReps: 2, maxReps: 4, minOps: 8, maxOps: 30,
@@ -45,6 +46,7 @@ type genState struct {
 	phase   int
 	sort    string
 	started bool
+	pending []hop // scripted follow-up of an "open": operations on and with the re-opened replica
 }
 
 func newGen(rng *rand.Rand, p profile) func(h *histRun, i int) *hop {
@@ -111,6 +113,72 @@ func (g *genState) next(h *histRun, i int) *hop {
 	}
 	k := i - len(g.setup)
 	nr := len(h.w.reps)
+	if k < g.nOps && len(g.pending) > 0 {
+		o := g.pending[0]
+		g.pending = g.pending[1:]
+		return &o
+	}
+	if k < g.nOps && g.p.pOpen > 0 && len(h.w.created) > 0 && rng.Float64() < g.p.pOpen {
+		// open a new replica over a selection of a replica's entries: all of them, a newest-first prefix of
+		// its linearisation (what a limited load returns), or a random subset in random order
+		src := rng.Intn(nr)
+		held := h.w.reps[src].log.Values().Slice()
+		idx := map[string]int{}
+		for i, e := range h.w.created {
+			idx[e.GetHash().String()] = i
+		}
+		var keep []int
+		for _, e := range held {
+			if i, ok := idx[e.GetHash().String()]; ok {
+				keep = append(keep, i)
+			}
+		}
+		switch rng.Intn(4) {
+		case 0: // everything, oldest first
+		case 1: // the newest n
+			if len(keep) > 0 {
+				keep = keep[rng.Intn(len(keep)):]
+			}
+		case 2: // a random subset, shuffled
+			rng.Shuffle(len(keep), func(a, b int) { keep[a], keep[b] = keep[b], keep[a] })
+			if len(keep) > 0 {
+				keep = keep[:1+rng.Intn(len(keep))]
+			}
+		case 3: // everything, newest first, one entry named twice and one the source does not hold
+			for a, b := 0, len(keep)-1; a < b; a, b = a+1, b-1 {
+				keep[a], keep[b] = keep[b], keep[a]
+			}
+			if len(keep) > 0 {
+				keep = append(keep, keep[0], len(h.w.created)+3)
+			}
+		}
+		o := &hop{Kind: "open", Src: src, Keep: keep, Ident: pick(rng, identNames), Sort: h.w.reps[src].sort}
+		if rng.Float64() < g.p.pDenyLog {
+			o.Deny = []string{pick(rng, identNames)}
+		}
+		// then: append on it, merge it with others in both directions, append again
+		other := rng.Intn(nr)
+		size := func() int {
+			if rng.Float64() < g.p.pBounded {
+				return rng.Intn(len(held) + 3)
+			}
+			return -1
+		}
+		script := []hop{
+			{Kind: "append", R: nr, Payload: "o0", PC: pick(rng, g.p.pcs)},
+			{Kind: "join", R: nr, Src: other, Size: size()},
+			{Kind: "append", R: nr, Payload: "o1", PC: pick(rng, g.p.pcs)},
+			{Kind: "join", R: other, Src: nr, Size: size()},
+			{Kind: "setid", R: nr, Ident: pick(rng, identNames)},
+			{Kind: "append", R: nr, Payload: "o2", PC: pick(rng, g.p.pcs)},
+		}
+		for _, so := range script {
+			if rng.Intn(3) > 0 {
+				g.pending = append(g.pending, so)
+			}
+		}
+		return o
+	}
 	if k < g.nOps {
 		x := rng.Float64()
 		// the optional "empty" replica (last one, when present with log id L) is never appended to
@@ -593,6 +661,7 @@ func init() {
 	p2 := p
 	p2.name = "base+acl"
 	p2.pDenyLog = 0.3
+	p2.pOpen = 0.03
 	register("C02", runLogProp(logRunCfg{prop: "C02", profile: p2, nQuick: 150, nThorough: 3000, perShard: 12}))
 	p6 := p
 	p6.name = "acl"
@@ -609,6 +678,7 @@ func init() {
 	p4.pcs = []int{0, 1, 2, 3, 4, 7, 8, 16, 31, 64, 1000}
 	p4.pSetID = 0.05
 	p4.pWide = 0.3
+	p4.pOpen = 0.05
 	register("C04", runLogProp(logRunCfg{prop: "C04", profile: p4, nQuick: 150, nThorough: 3000, perShard: 12}))
 	p5 := p
 	p5.name = "base+acl"
@@ -618,6 +688,7 @@ func init() {
 	p16.name = "bounded-joins"
 	p16.pBounded = 0.45
 	p16.finale = false
+	p16.pOpen = 0.05
 	register("C16", runLogProp(logRunCfg{prop: "C16", profile: p16, nQuick: 150, nThorough: 3000, perShard: 12}))
 	p15 := p
 	p15.name = "iterator"
